@@ -506,6 +506,8 @@ func runC01(ctx *core.Ctx) {
 		c01UnicityLoop(ctx) // the seq / keys loop of enforceUnicity (c01_unicity.go)
 		c01Pipe(ctx, sch, rich) // the composed stage models vs LoadModelWithContext (c01_pipe.go)
 		c01Files(ctx)           // env_file / label_file resolution on a faulty disk (c01_files.go)
+		c01FilesProject(ctx)    // … over all services of a project, any visit order (c01_files_project.go)
+		c01PipeFS(ctx)          // the composed pipeline with cross-file extends vs LoadModelWithContext (c01_pipefs.go)
 	}
 	if only == "" || only == "schema" {
 		schemacorr.Run(ctx) // gojsonschema vs Schema.conforms (harness/schema.go): the tie behind Props/C01Schema.lean
@@ -518,6 +520,13 @@ func runC01(ctx *core.Ctx) {
 	}
 	if only == "files" {
 		c01Files(ctx)
+		c01FilesProject(ctx)
+	}
+	if only == "pipefs" {
+		c01PipeFS(ctx)
+	}
+	if only == "twice" {
+		c01Twice(ctx)
 	}
 	if only == "unreadable" {
 		c01Unreadable(ctx)
@@ -537,6 +546,7 @@ func runC01(ctx *core.Ctx) {
 		c01Tags(ctx, rich)
 		c01Names(ctx, rich)
 		c01Missing(ctx)
+		c01Twice(ctx) // one referenced file, several references: spellings × required flags × services (c01_twice.go)
 		c01Unreadable(ctx)
 		c01Kinds(ctx, sch, rich)
 		c01Seqified(ctx, sch, rich) // a mapping on the way replaced by the list of its values (c01_seqified.go)
